@@ -21,7 +21,7 @@ func init() {
 	property("C18",
 		"Static conformance of the no-crash / termination / error-location mechanisms: (a) the only reachable panic is the invalid-UTF-8 panic in the lexer and its guard implies an invalid encoding (RuneError with width 1); no unchecked type assertion, no integer division, log.Fatal only in main; (b) every token loop of the parser consumes a token on every path of an iteration and cannot continue at exhausted input (abstract evaluation with every window token = EOF, callee summaries 'errors at EOF'); every lexer loop reads a character per iteration and its guard is false at end of input; other loops are ranges or bounded counters; (c) every index/slice expression is discharged by a dominating comparison (range key, i < len, len > 0, i == len-1, next = i+1 < len) or by a reviewed exemption naming one function and operand; map updates target maps created by the same component; (d) every error returned by a repo function is returned or tested, and the failure branch returns a non-nil error (except the two environment callees whose failure is by design only logged); (e) error ranges are ordered (start token is the current or an earlier captured token) and no error is built from a synthesised or possibly unassigned token; (f) the environment-error flag only ever enables an error return or a log line, and lint construction equals normal construction with the flag off; (g, h) every lexer arm consumes a character and token consumption does not depend on environment or data; (i) the token-window vocabulary the loop rules rely on is what it says (nextToken shifts the window by one, xTokenIs tests its own slot, expectPeek advances once exactly on a match); a pointer result of a fallible call is looked into only after its error was tested; counters of counter loops move on every back edge. NOT decided: stack depth for pathologically nested input, the wall-clock bound, FormatText's string-offset loop.",
 		[]string{"unicode.IsLetter(0) = unicode.IsDigit(0) = unicode.IsSpace(0) = false (the lexer's own predicates are evaluated at 0 from their definitions)", "once the lexer has returned EOF it returns EOF forever (readChar at end of input leaves ch = 0 and changes no position)", "exemptions listed in /verif/exemptions.json (each names one function and operand with a reason)", "configuration values (command_config.json) are outside the property's quantifier"},
-		"C18.a", "C18.b", "C18.c", "C18.d", "C18.e", "C18.f", "C18.g", "C18.h", "C18.i", "C16.c", "C12.a", "C12.b", "C01.c", "C01.d", "C19.b")
+		"C18.a", "C18.b", "C18.c", "C18.d", "C18.e", "C18.f", "C18.g", "C18.h", "C18.i", "C16.c", "C12.a", "C12.b", "C01.c", "C01.d", "C19.b", "C16.d", "C18.j", "C18.k")
 
 	register(&Rule{ID: "C18.a", Doc: "no reachable crash construct except the guarded invalid-UTF-8 panic", Floor: 4, Run: c18a})
 	register(&Rule{ID: "C18.b", Doc: "loops terminate: progress on every path, no continuation at exhausted input", Floor: 30, Run: c18b})
@@ -1113,6 +1113,159 @@ func c18e(c *Ctx) {
 		}
 		ok = f != nil && f["LineNumberStart"] == "$0.LineNumber" && f["LineNumberEnd"] == "$0.EndLineNumber" && f["CharStart"] == "$0.StartCharIndex" && f["CharEnd"] == "$0.EndCharIndex"
 		c.Check(ok, "NewParseError/fields", c.W.FuncPos(np), "error range = the token's own range", "NewParseError does not copy the token's own start and end")
+	}
+	// every error the parser returns is a located one: built by one of the two constructors, or
+	// handed up unchanged from a parser function for which the same holds (an error of strconv,
+	// fmt or errors returned as it is carries no line range at all)
+	{
+		var isParserFn func(g *ssa.Function) bool
+		isParserFn = func(g *ssa.Function) bool {
+			if g == nil || !c.W.InRepo(g) || c.W.PkgShort(g) != "parser" {
+				return false
+			}
+			if g.Parent() != nil {
+				return isParserFn(g.Parent())
+			}
+			if r := g.Signature.Recv(); r != nil && typeIs(r.Type(), "parser", "Parser") {
+				return true
+			}
+			ps := g.Signature.Params()
+			for i := 0; i < ps.Len(); i++ {
+				if typeIs(ps.At(i).Type(), "parser", "Parser") {
+					return true
+				}
+			}
+			return false
+		}
+		nRet := 0
+		for _, fn := range c.W.FuncsOf("parser") {
+			if isTestFunc(c.W, fn) || !isParserFn(fn) {
+				continue
+			}
+			res := fn.Signature.Results()
+			if res.Len() == 0 || !isErrorType(res.At(res.Len()-1).Type()) {
+				continue
+			}
+			fk := c.W.FuncKey(fn)
+			var located func(v ssa.Value, depth int) string
+			located = func(v ssa.Value, depth int) string {
+				if depth > 8 {
+					return "too deep"
+				}
+				switch x := v.(type) {
+				case *ssa.Const:
+					if x.IsNil() {
+						return ""
+					}
+				case *ssa.Phi:
+					for _, e := range x.Edges {
+						if e == v {
+							continue
+						}
+						if w := located(e, depth+1); w != "" {
+							return w
+						}
+					}
+					return ""
+				case *ssa.MakeInterface:
+					if typeIs(x.X.Type(), "parser", "ParseError") {
+						return ""
+					}
+					return "a " + x.X.Type().String()
+				case *ssa.Call:
+					g := callee(x)
+					if g == nr || g == np || isParserFn(g) {
+						return ""
+					}
+					if g != nil && c.W.InRepo(g) && isErrorCtorFn(g, 0) {
+						return ""
+					}
+					return "the error of " + calleeName(x)
+				case *ssa.Extract:
+					if cl, ok := x.Tuple.(*ssa.Call); ok {
+						g := callee(cl)
+						if isParserFn(g) {
+							return ""
+						}
+						// a parse function handed in as an argument: every function passed for it is a parser function
+						if par, ok := cl.Call.Value.(*ssa.Parameter); ok && g == nil {
+							idx := -1
+							for i, pp := range fn.Params {
+								if pp == par {
+									idx = i
+								}
+							}
+							var resolve func(f *ssa.Function, idx, depth int) bool
+							resolve = func(f *ssa.Function, idx, depth int) bool {
+								sites := c.W.callsTo(f)
+								if idx < 0 || len(sites) == 0 || depth > 3 {
+									return false
+								}
+								for _, site := range sites {
+									av := site.Common().Args[idx]
+									for {
+										ct, ok := av.(*ssa.ChangeType)
+										if !ok {
+											break
+										}
+										av = ct.X
+									}
+									switch a := av.(type) {
+									case *ssa.Function:
+										if !isParserFn(a) {
+											return false
+										}
+									case *ssa.MakeClosure:
+										h, _ := a.Fn.(*ssa.Function)
+										if !isParserFn(h) {
+											return false
+										}
+									case *ssa.Parameter:
+										j := -1
+										for i, pp := range site.Parent().Params {
+											if pp == a {
+												j = i
+											}
+										}
+										if !resolve(site.Parent(), j, depth+1) {
+											return false
+										}
+									default:
+										return false
+									}
+								}
+								return true
+							}
+							allParser := resolve(fn, idx, 0)
+							if allParser {
+								return ""
+							}
+							return "the error of a function value that is not always a parser function"
+						}
+						return "the error of " + calleeName(cl)
+					}
+				case *ssa.UnOp:
+					if a, ok := x.X.(*ssa.Alloc); ok {
+						for _, alt := range c.reachingStores(fn, a, x) {
+							if alt.val != nil {
+								if w := located(alt.val, depth+1); w != "" {
+									return w
+								}
+							}
+						}
+						return ""
+					}
+				}
+				return pretty(c.term(fn, v))
+			}
+			for i, r := range returnsOf(fn) {
+				ev := r.Results[len(r.Results)-1]
+				nRet++
+				why := located(ev, 0)
+				c.Check(why == "", fmt.Sprintf("%s/located-error#%d", fk, i), c.W.Pos(r.Pos()), "the error returned is nil, a ParseError, or handed up from a parser function", fn.Name()+" returns "+why+" as its error: it carries no line range (the property promises every error names where in the input it is)")
+			}
+		}
+		c.Check(nRet >= 100, "located-errors/scanned", "-", fmt.Sprintf("%d error returns of parser functions examined", nRet), fmt.Sprintf("expected at least 100 error returns in parser functions, found %d", nRet))
 	}
 	loopDominates := func(fn *ssa.Function, ta, tb string) bool {
 		// tags L<n>: header block n of a dominates header block n of b
